@@ -77,17 +77,18 @@ MixLits  == {PlainLit("l"), PlainLit("1"), LangLit("l", "en"), LangLit("l2", "en
 MixQt    == {<<"qt", <<"iri", "a/", "n0">>, <<"iri", "b#", "n1">>, PlainLit("l")>>,
              <<"qt", <<"iri", "c/", "n8">>, <<"iri", "a/", "n0">>, <<"iri", "d#", "n9">>>>,
              <<"qt", Bn("b1"), <<"iri", "", "w">>, <<"qt", <<"iri", "a/", "x">>, <<"iri", "b/", "n2">>, TypedLit("1", "d:a")>>>>}
-MixS == MixIri \cup {Bn("b1"), Bn("b2")} \cup MixQt \cup {PlainLit("l")}
+SameText == {Bn("w"), Bn("x"), PlainLit("w")}        \* a blank node / literal whose text equals that of the IRIs <w>, <x> (empty prefix)
+MixS == MixIri \cup {Bn("b1"), Bn("b2")} \cup MixQt \cup {PlainLit("l")} \cup SameText
 MixP == MixIri \cup {Bn("b1"), TypedLit("1", "d:a")}
-MixO == MixIri \cup {Bn("b1"), Bn("b2")} \cup MixLits \cup MixQt
-MixG == {DG, Bn("g"), PlainLit("l"), TypedLit("1", "d:b")} \cup Iris({"a/", "b#", ""}, {"n0", "n3", "x"})
+MixO == MixIri \cup {Bn("b1"), Bn("b2")} \cup MixLits \cup MixQt \cup SameText
+MixG == {DG, Bn("g"), Bn("x"), PlainLit("l"), TypedLit("1", "d:b")} \cup Iris({"a/", "b#", ""}, {"n0", "n3", "x"})
 MixNs == {<<"ex", "a/", "">>, <<"", "b#", "">>, <<"n", "", "x">>, <<"e2", "c/", "n4">>, <<"rdf", "d#", "">>}
 
 \* RDF 1.1 only (rdflib can carry it)
-R11S == MixIri \cup {Bn("b1"), Bn("b2")}
+R11S == MixIri \cup {Bn("b1"), Bn("b2"), Bn("w"), Bn("x")}
 R11P == MixIri
-R11O == MixIri \cup {Bn("b1"), Bn("b2")} \cup MixLits
-R11G == {DG, Bn("g")} \cup Iris({"a/", "b#", ""}, {"n0", "n3", "x"})
+R11O == MixIri \cup {Bn("b1"), Bn("b2"), Bn("w"), Bn("x"), PlainLit("w")} \cup MixLits
+R11G == {DG, Bn("g"), Bn("x")} \cup Iris({"a/", "b#", ""}, {"n0", "n3", "x"})
 
 \* C18: statements that need more entries than an enabled table has slots
 I(p, n) == <<"iri", p, n>>
